@@ -246,6 +246,17 @@ def run(ctx):
         crafted.append(craft_b2([(b'https://example.com/', r)]))
         crafted.append(craft_b2([(b'https://example.com/0', craft_response([ST], b'ok')), (b'https://example.com/1', r)], primary=b'https://example.com/0'))
     muts += crafted
+    # b1 index entries whose Variants axes multiply past the limit, to 2^63, to 2^64 (wraps to 0) and beyond, with a value array that
+    # carries no / one / the honest number of locations; plus small honest variant entries built the same way (controls)
+    okr = craft_response([ST], b'ok')
+    def axes(n, k=2): return b', '.join(b'A%d;' % i + b';'.join(b'v%d' % j for j in range(k)) for i in range(n))
+    b1c = []
+    for vv, nresp, nlocs in [(axes(1), 2, None), (axes(2), 4, None), (axes(2), 4, 3), (axes(2), 4, 0), (axes(1), 2, 0), (axes(13), 1, 1), (axes(14), 1, 1), (axes(14), 0, 0),
+                             (axes(62), 0, 0), (axes(63), 0, 0), (axes(64), 0, 0), (axes(65), 0, 0), (axes(70), 0, 0), (axes(63), 1, 1), (axes(64), 1, 1), (axes(32, 4), 0, 0), (axes(16, 16), 0, 0),
+                             (axes(1, 10000), 0, 0), (axes(1, 10001), 0, 0), (axes(2, 100), 0, 0), (axes(2, 101), 0, 0), (b'', 1, None), (b'', 2, None), (b'', 1, 0)]:
+        ents = [(b'https://example.com/huge', vv, [craft_response([ST], b'r%d' % i) for i in range(nresp)], nlocs), (b'https://example.com/ok', b'', [okr], None)]
+        b1c.append(craft_b1(ents)); b1c.append(craft_b1(list(reversed(ents))))
+    muts += b1c
     # bundles past 64 KiB: offsets / lengths of every CBOR width class (1, 2, 3, 5 byte heads) decoded one after another by the same
     # decoder, in both orders (index entries are sorted by URL, so the URL names decide the order in which the widths appear)
     bigseeds = []
@@ -265,7 +276,7 @@ def run(ctx):
         if mfile not in seen:
             seen.add(mfile); uniq.append(mfile)
     if not thorough and len(uniq) > 20000:
-        keep = set(crafted)
+        keep = set(crafted) | set(b1c)
         for f in files:
             keep.update(index_mutants(f)); keep.update(c10.retabled(f)); keep.update(sections_variants(f)); keep.add(f)
         rest = [u for u in uniq if u not in keep]
